@@ -7,7 +7,7 @@
 //!     `from_json_slice`, inside a `JwkSet`, inside a verification method's `publicKeyJwk`, inside a `did:jwk`).
 //! (b) `json-optional`: the well-formed member sets (required members of the declared type + every
 //!     subset of its private members: 133 sets) x optional-member subsets (<=2 present / all 256) x
-//!     key_ops menu (9) x kid menu (5, incl. empty / unicode / long) x member order.
+//!     key_ops menu (9) x kid menu (7, incl. empty / unicode / long / thumbprint-shaped) x member order.
 //! (c) `values`: the 133 member sets x value profiles of the public members (every registered curve name incl.
 //!     the BLS curves, unknown and empty curve names, empty and 4 096-character values, other RSA exponents)
 //!     x value profiles of the private members (RFC values, present-but-empty, long / two `oth` primes).
@@ -117,14 +117,18 @@ const OPS_MENU: [&[&str]; 9] = [
   &["proofVerification"],
   &["sign", "sign"],
 ];
-const N_KIDS: u8 = 5;
+const N_KIDS: u8 = 7;
 fn kid_value(kidv: u8) -> String {
   match kidv % N_KIDS {
     0 => "key-1".into(),
     1 => String::new(),
     2 => "#key-1".into(),
     3 => "\u{43a}\u{43b}\u{44e}\u{447}-\u{fc}-\u{1F511} \"q\"\\".into(),
-    _ => "k".repeat(300),
+    4 => "k".repeat(300),
+    // thumbprint-shaped kids (43 base64url characters = 32 bytes): the RFC 7638 §3.1 example thumbprint — the
+    // thumbprint of one key of the menu and of no other — and one that is no key's thumbprint
+    5 => "NzbLsXh8uDCcd-6MNwXF4W_7noWXFZAfHkxZsRGC9Xs".into(),
+    _ => "A".repeat(43),
   }
 }
 
